@@ -268,7 +268,8 @@ class PList:
         vs = tuple(Sym(z3.Select(c, iz), k) for c, k in zip(self.cols, self.kinds))
         proto = self.proto
         if proto is not None:
-            vs = tuple(Opaque(v.z, proto) for v in vs)
+            wrap = proto.get("__wrap__") or (lambda z: Opaque(z, proto))  # a protocol may name the value class of its elements
+            vs = tuple(wrap(v.z) for v in vs)
         return vs if self.tup else vs[0]
 
     def __repr__(self):
